@@ -32,6 +32,8 @@ func init() {
 	r6Wrap("C16", r6DressedReader)
 	r6Wrap("C11", r6C11)
 	r6Wrap("C06", r6C06)
+	r6Wrap("C16", r6C16W)
+	r6Wrap("C18", r6C18)
 	r6Wrap("C12", r6C12)
 	r6Wrap("C09", r6HHW)
 	r6Wrap("C10", r6HHW)
@@ -306,6 +308,46 @@ func r6C12(c *ctx) {
 		for kinds := 0; kinds < 4; kinds++ {
 			for _, k := range []int{0, 5} {
 				frp(c, n, k, kinds, 100+c.rng.Intn(500))
+			}
+		}
+	}
+}
+
+// r6-C16: the destination fails with a TIMEOUT-type error (what a net.Conn reports for an expired write deadline, or
+// os.ErrDeadlineExceeded): it is a failed write like any other - sticky, nothing more is sent
+func r6C16W(c *ctx) {
+	for _, ctor := range []string{"s7", "s125", "b20", "d0"} {
+		for _, side := range []byte{1, 2} {
+			cfg := wcfg{ctor, side, 2, "-"}
+			for j, h := range []string{"w9/1,ff,w30/2,fl,w5/3,fl,w300/4,t3/5,ff,fl", "w200/1,w200/2,w3/3,fl,w2/4,fl", "r500/1/-,fl,w3/2,fl"} {
+				dst := newRecWriter()
+				w, _ := newWriter(dst, cfg)
+				runWops(w, dst, strings.Split(h, ","))
+				for k := 0; k <= len(dst.calls) && k < 7; k++ {
+					runWH(c, "WHF", cfg, h, []string{"t", "d"}[(j+k)%2]+strconv.Itoa(k))
+				}
+			}
+		}
+	}
+}
+
+// r6-C18b: a writer that had k extensions before Reset / the pool cycle is given k' > k extensions afterwards: all of
+// them are attached, as on a new writer ("01": the SECOND one sets RSV1)
+func r6C18(c *ctx) {
+	type pc struct {
+		ctor  string
+		state byte
+	}
+	for _, p := range []pc{{"s125", 1}, {"s125", 2}, {"u132", 1}, {"u136", 2}, {"s128", 1}} {
+		for _, exts := range []string{"1", "0", "-"} {
+			for _, mode := range []string{"reset", "pool"} {
+				for _, h2 := range []string{"x01,w3/1,fl,w200/2,fl", "x001,w3/1,fl", "x0,w3/1,fl,x01,w4/2,fl", "x1,w3/1,fl"} {
+					cfg := wcfg{p.ctor, p.state, 1, exts}
+					if exts != "-" {
+						cfg.state |= 4
+					}
+					runW18(c, cfg, "w3/1,fl", "-", mode, p.state|4, 1, h2)
+				}
 			}
 		}
 	}
